@@ -61,3 +61,22 @@ Fixpoint first_diff (a b : list obs) (i : N) : option (N * option obs * option o
   | [], y :: _ => Some (i, None, Some y)
   end.
 Definition explain (pe cr : bool) (c : tracker_case) := first_diff (tracker_model_v pe cr c) (snd c) 0.
+
+(** the same requests through vls-protocol-signer's RootHandler: AddBlock answers an
+    OrphanBlock with a SignerError reply, every other refusal of the tracker (and every
+    refusal of RemoveBlock) is a panic of the signer; the harness stops there *)
+Fixpoint trace_h (v : variant) (c : cfg) (s : tstate) (rs : list req) : list obs :=
+  match rs with
+  | [] => []
+  | r :: t =>
+      let '(s1, res) := step v c s r in
+      match r, res with
+      | _, Ok => (0, view_of s1) :: trace_h v c s1 t
+      | Add _ _, Err OrphanBlock => (2, view_of s1) :: trace_h v c s1 t
+      | _, _ => [(7, view_of s)]
+      end
+  end.
+Definition check_handler (c : tracker_case) : bool :=
+  let '(cf, s0, rs, o) := c in beq (trace_h fixed cf s0 rs) o.
+Definition explain_h (c : tracker_case) :=
+  let '(cf, s0, rs, o) := c in first_diff (trace_h fixed cf s0 rs) o 0.
